@@ -18,7 +18,8 @@ from ..bridge import guard, Raised, parse_domain, observe_state, operator, REPO
 from ..core import Prog, ref_applicable, ref_successor, UNDEF, ILL, same_state, show
 from ..gens import vdom
 from ..permsched import installed, explore, Sched
-from ..refsem import RefState, RefDomain
+from fractions import Fraction
+from ..refsem import RefState, RefDomain, is_number
 from ..runner import CaseResult, digest
 from .c01 import vocab_lib
 from .c20 import norm
@@ -101,6 +102,53 @@ def abs_key(P: RefDomain):
     }
 
 
+def _masked(tree):
+    if isinstance(tree, str):
+        return "#" if is_number(tree) else tree
+    return "(" + " ".join(_masked(t) for t in tree) + ")"
+
+
+def numerals(tree, ctx):
+    """(context, value) of every numeral, operands of and/or visited in a numeral-independent canonical order;
+    context 'cond' (printed at 2 decimals) for preconditions and when-conditions, 'eff' (4 decimals) for effects"""
+    out = []
+    if isinstance(tree, str):
+        if is_number(tree):
+            out.append((ctx, Fraction(tree)))
+        return out
+    if not tree:
+        return out
+    h = tree[0]
+    if h in ("and", "or"):
+        for t in sorted(tree[1:], key=_masked):
+            out += numerals(t, ctx)
+    elif h == "when":
+        out += numerals(tree[1], "cond") + numerals(tree[2], "eff")
+    elif h == "forall":
+        out += numerals(tree[2], ctx)
+    else:
+        for t in tree[1:]:
+            out += numerals(t, ctx)
+    return out
+
+
+def constants_survive(P1, P2):
+    """None if every constant of P2 is within half a unit of the last printed decimal of P1's; else a description"""
+    for name, a1 in P1.actions.items():
+        a2 = P2.actions.get(name)
+        if a2 is None:
+            continue
+        n1 = numerals(a1.pre, "cond") + numerals(a1.eff, "eff")
+        n2 = numerals(a2.pre, "cond") + numerals(a2.eff, "eff")
+        if [c for c, _ in n1] != [c for c, _ in n2]:
+            continue  # different structure: judged by the behaviour / structure clauses
+        for (ctx, v1), (_, v2) in zip(n1, n2):
+            d = 2 if ctx == "cond" else 4
+            if abs(v1 - v2) > Fraction(1, 2) / 10 ** d * (1 + Fraction(1, 10 ** 6)):
+                return f"constant {float(v1)} in a {'condition' if ctx == 'cond' else 'effect'} of action {name} became {float(v2)} (printed precision {d} decimals)"
+    return None
+
+
 def observe(x):
     if isinstance(x, Raised):
         return x
@@ -158,6 +206,13 @@ def check_generated(case, r):
             P1, P2 = abs_domain(D), abs_domain(D2)
         except AbsError:
             P1 = P2 = None
+        if P1 is not None:
+            bad = constants_survive(P1, P2)
+            if bad:
+                r.outcome("constant-lost")
+                r.fail("constants", f"order={order}: {bad}; pre={case['pre']} eff={case['eff']}; exported text:\n{out}",
+                       "within print precision", bad, tags=case["tags"])
+                return
         # behaviour: implementation vs implementation, over the relevant universe of the source program
         if sched.choices and any(sched.choices):
             # for permuted exports the structural comparison with the identity export suffices when equal
